@@ -112,6 +112,10 @@ static void fillOptions(vrt::Rng& r, Spec& s, bool allowElementwise) {
   }
   long mts[] = {-1, -1, -1, 0, 1, 2, 3, s.pool, s.pool + 1, s.pool + 2};
   s.maxThreads = mts[r.below(10)];
+  if (r.chance(0.05)) {
+    long huge[] = {2147483647L, 2147483648L, 4294967295L};
+    s.maxThreads = huge[r.below(3)];
+  }
   s.minItems = r.chance(0.25) ? static_cast<unsigned>(r.range(2, 40)) : 1;
   s.gran = r.chance(0.3) ? static_cast<unsigned>(r.range(2, 64)) : 1;
   s.wait = !r.chance(0.3);
@@ -303,6 +307,9 @@ static void runC14orC48(const char* prop) {
     fillOptions(r, s, false);
     s.ctx = 0;
     s.pool = static_cast<int>(r.range(1, 9));
+    // C14: a third of the calls are made by a worker of the same pool (the caller's ring index
+    // selects which chunk / state the static path gives the calling thread)
+    if (is14 && r.chance(0.33)) s.ctx = 1;
     if (is14) s.api = 1;
     else if (s.api == 2) s.api = static_cast<int>(r.below(2));
     if (s.api >= 2 && s.chunking == 2) s.chunking = 0;
@@ -354,6 +361,7 @@ static void runC14orC48(const char* prop) {
     cls.push_back(std::string("chunking:") + ck[s.chunking]);
     cls.push_back(s.wait ? "wait" : "nowait");
     if (tail) cls.push_back("tail");
+    if (s.ctx == 1) cls.push_back("from-pool-worker");
     if (o.maxInflight >= 2) cls.push_back("concurrent-bodies");
     if (!is14 && o.maxInflight == bound && bound >= 2) cls.push_back("bound-reached");
     if (!is14 && (s.maxThreads == 0 || s.maxThreads == 1)) cls.push_back("serial-requested");
@@ -452,6 +460,12 @@ static FeSpec genForEach(vrt::Rng& r, bool dwell) {
   s.pool = static_cast<int>(r.range(0, 9));
   long mts[] = {-1, -1, 0, 1, 2, s.pool, s.pool + 1, 3};
   s.maxThreads = mts[r.below(8)];
+  // the option is a uint32_t that the implementation narrows: values around the int32 limit and
+  // the "no limit" spelling UINT32_MAX
+  if (r.chance(0.08)) {
+    long huge[] = {2147483647L, 2147483648L, 4294967295L, 4294967294L, 2147483649L};
+    s.maxThreads = huge[r.below(5)];
+  }
   s.wait = !r.chance(0.4);
   s.tsKind = static_cast<int>(r.below(2));
   s.dwellUs = dwell ? static_cast<int>(r.range(30, 150)) : 0;
@@ -460,7 +474,7 @@ static FeSpec genForEach(vrt::Rng& r, bool dwell) {
 
 static std::string feKey(const FeSpec& s) {
   const char* c[] = {"random-access", "bidirectional", "forward"};
-  std::string mt = s.maxThreads < 0 ? "mt-default" : s.maxThreads == 0 ? "mt0" : s.maxThreads == 1 ? "mt1" : "mtN";
+  std::string mt = s.maxThreads < 0 ? "mt-default" : s.maxThreads == 0 ? "mt0" : s.maxThreads == 1 ? "mt1" : s.maxThreads >= 2147483647L ? "mt-huge" : "mtN";
   return std::string(c[s.cont]) + "/" + (s.wait ? "wait" : "nowait") + "/" + (s.pool == 0 ? "pool0" : "poolN") + "/" + mt + "/" + (s.n == 0 ? "n0" : "nPos");
 }
 
@@ -481,6 +495,7 @@ static void runC15() {
     if (s.pool == 0) cls.push_back("pool0");
     if (s.useN) cls.push_back("for_each_n");
     if (s.maxThreads == 0 || s.maxThreads == 1) cls.push_back("serial-requested");
+    if (s.maxThreads >= 2147483647L) cls.push_back("mt-huge");
     vrt::caseEnd(J().kv("n", s.n).kv("bad", o.bad).kv("maxInflight", o.maxInflight), s.n >= 2 ? s.json().str() : "", cls);
   }
 }
